@@ -12,7 +12,7 @@ CONSTANTS
   Defects = {}
   AdvKinds = {"flipdata", "flipmac", "swap", "replay", "pad"}
   InitP = {"p0", "p1"}
-  InitQ = {"q0", "q1"}
+  InitQ = {"q0"}
   InitBlk = "all"
 INVARIANT Reached
 INVARIANT TypeOK
